@@ -229,7 +229,7 @@ def run(ctx: Ctx) -> None:
         "context pos < posMax <= len(src) — the rules index src[pos] —, inline_total2, iok_*; the backtick rule with its closer cache "
         "and its search over the whole source), giving imini_total for the inline sub-parser under every subset of those rules "
         "(model tied by the `inline` differential runs), and with the emphasis rule (scanDelims, tokenize, balance_pairs, _postProcess: "
-        "Props/C01f.lean iok_emphasis, emini_total, for every character classification). For all other rules (table, reference, html_block, lheading; "
+        "Props/C01f.lean iok_emphasis, iok_strike, emini_total, smini_total — strikethrough with its lone-marker swap included —, for every character classification). For all other rules (table, reference, html_block, lheading; "
         "the other inline rules) the contracts are monitored on every call on the implementation, not proved",
         "renderer totality follows from structural recursion on tokens in the renderer model (C04); CPython's real stack "
         "limit, memory and `re` engine time are not exhibited by the model: covered by the per-input time limit and the deep-"
